@@ -12,7 +12,7 @@
 #
 # The registered checks never use this; it exists for the seeded-change experiments (DESIGN §11.4).
 set -u
-MB=/tmp/mb
+MB=${MB:-/tmp/mb}
 cmd=${1:-}; shift || true
 
 sync_verif() {
@@ -21,8 +21,8 @@ sync_verif() {
         /verif/ $MB/verif/
   # path deps and #[path] includes -> scratch repo
   grep -rlE '/repo/|"/repo"' $MB/verif/harness --include=*.toml --include=*.rs | grep -v /target/ | \
-    xargs -r sed -i -E 's#"/repo"#"/tmp/mb/repo"#g; s#/repo/#/tmp/mb/repo/#g'
-  sed -i -E 's#/tmp/mb/tmp/mb/#/tmp/mb/#g' $(grep -rl '/tmp/mb/tmp/mb/' $MB/verif/harness 2>/dev/null) 2>/dev/null || true
+    xargs -r sed -i -E "s#\"/repo\"#\"$MB/repo\"#g; s#/repo/#$MB/repo/#g"
+  sed -i -E "s#$MB$MB/#$MB/#g" $(grep -rl "$MB$MB/" $MB/verif/harness 2>/dev/null) 2>/dev/null || true
 }
 
 sync_repo() {
